@@ -344,7 +344,7 @@ RULE = (
 
 def build(tier):
     return CheckSpec(
-        [Sub("transfers", run_case, strategy=_case, budget={"quick": 2500, "thorough": 50000}, max_wall={"quick": 55, "thorough": 2400})],
+        [Sub("transfers", run_case, strategy=_case, budget={"quick": 2500, "thorough": 250000}, max_wall={"quick": 55, "thorough": 3600})],
         RULE,
         assumptions=["OS boundary replaced by vlib.simnet", "szx 7 (BERT) is not negotiable over UDP and not generated", "the reference server in checks/c05.py is a correct reading of RFC 7959 section 2 (self-tested on a hand-made exchange)"],
         selftest=selftest,
